@@ -279,3 +279,48 @@ func c02AbsentInvalid(c *Ctx, r *Report) {
 	r.ok(rule, "scan", "", fmt.Sprintf("%d table rows: the all-invalid constructor gives each member the invalid value of its row's base type at the member's width", n))
 	r.need("rows compared with their constructor value", n, 500)
 }
+
+// c02ArrayElementsKept (C02-R16-array-elements-kept, after wave-13 seed C06-O; also under C06): the
+// array stored into a message is the slice the element loop filled — reflect.MakeSlice(type, n, n) with
+// n = size / element size, handed to Set as it is (strings: reflect.ValueOf of the string slice).
+// A value derived from it (re-sliced, trimmed, filtered by a helper) drops or reorders elements the
+// record carried; which elements are "padding" is for the comparison to decide, not for the decoder.
+func c02ArrayElementsKept(c *Ctx, r *Report) {
+	const rule = "C02-R16-array-elements-kept"
+	fn := c.ssaFn(c.fn(c.fit, "decoder.parseFitFieldArray"))
+	if fn == nil {
+		r.fail(rule, "parseFitFieldArray", "", "not found")
+		return
+	}
+	n := 0
+	for _, ci := range allCalls(fn) {
+		f := ci.Common().StaticCallee()
+		if f == nil || f.String() != "(reflect.Value).Set" {
+			continue
+		}
+		n++
+		arg := ci.Common().Args[1]
+		ok, why := false, "the value stored is "+stripAddrs(pathOf(arg))
+		if call, isCall := arg.(*ssa.Call); isCall && call.Common().StaticCallee() != nil {
+			switch call.Common().StaticCallee().String() {
+			case "reflect.MakeSlice":
+				a := call.Common().Args
+				if len(a) == 3 && stripAddrs(pathOf(a[1])) == stripAddrs(pathOf(a[2])) {
+					ok, why = true, "Set(MakeSlice(type, n, n)) with n = "+stripAddrs(pathOf(a[1]))
+				} else {
+					why = "MakeSlice with different length and capacity"
+				}
+			case "reflect.ValueOf":
+				if mi, isMI := call.Common().Args[0].(*ssa.MakeInterface); isMI {
+					if sl, isSl := mi.X.Type().Underlying().(*types.Slice); isSl {
+						if b, isB := sl.Elem().Underlying().(*types.Basic); isB && b.Info()&types.IsString != 0 {
+							ok, why = true, "Set(ValueOf(strings))"
+						}
+					}
+				}
+			}
+		}
+		r.check(ok, rule, fmt.Sprintf("parseFitFieldArray/Set#%d", n), c.pos(ci.Pos()), why, "the array stored into the message is not the slice the element loop filled ("+why+"): elements the record carried are dropped, reordered or cut short")
+	}
+	r.need("array Set calls in parseFitFieldArray", n, 2)
+}
